@@ -421,6 +421,46 @@ def shared_registry_history(mon: Mon, rng, rounds):
                                   f"after earlier calls that were also given algorithms= ({o.exc!r})", case)
 
 
+def kdf_algorithm_name(ctx, rng):
+    """ECDH-ES / ECDH-1PU in direct mode feed the "enc" name into the key derivation (Concat KDF AlgorithmID): the name that goes in is the one of the
+    content encryption algorithm the call was allowed to use (the protected "enc"), not a name an unprotected or per-recipient header offers beside it.
+    Observed from outside: a token made with such a shadowing member still decrypts once the member is taken away (nothing authenticated changes), and a
+    reference-made token to which the member is added is not decrypted into something else."""
+    j = J.load()
+    pt = b"c05 kdf name"
+    for alg in ("ECDH-ES", "ECDH-1PU"):
+        for crv in ("P-256", "X25519"):
+            for where in ("unprotected", "recipient"):
+                for other in ("A256CBC-HS512", "A256GCM", "BOGUS"):
+                    ctx.ev()
+                    enc = "A128GCM" if alg == "ECDH-ES" else "A128CBC-HS256"
+                    rk, sk = g.keys_for(alg, enc, crv)
+                    allow = [alg, enc]
+                    jsend, jspub = (j.key(sk), j.key(gen.public_jwk(sk))) if sk else (None, None)
+                    obj = j.jwe.FlattenedJSONEncryption({"enc": enc}, pt, {"enc": other} if where == "unprotected" else None)
+                    obj.add_recipient({"alg": alg, **({"enc": other} if where == "recipient" else {})}, j.key(gen.public_jwk(rk)))
+                    o = call(j.jwe.encrypt_json, obj, None, algorithms=allow, sender_key=jsend)
+                    ctx.count("calls")
+                    ctx.count("kdf_name_cases")
+                    ctx.cell("kdf-name", alg, where)
+                    ctx.nontrivial(("kdf-name", alg, crv, where, other))
+                    case = {"kdf_algorithm_name": True, "alg": alg, "enc": enc, "curve": crv, "other_enc_in": where, "other_enc": other, "allow": allow}
+                    if not o.ok:
+                        if o.etype != "UnsupportedAlgorithmError" and not isinstance(o.exc, ValueError):
+                            ctx.open(f"shadowing-enc-refused-with:{o.etype}")
+                        continue
+                    t = copy.deepcopy(o.value)
+                    if where == "unprotected":
+                        t.pop("unprotected", None)
+                    else:
+                        t["header"].pop("enc", None)
+                    d = call(j.jwe.decrypt_json, t, j.key(rk), algorithms=allow, sender_key=jspub)
+                    if not d.ok or d.value.plaintext != pt:
+                        ctx.violation("unlisted-enc-name-fed-into-key-derivation:encrypt", f"encrypt_json {alg} with algorithms={allow} and a {where} header \"enc\": "
+                                      f"{other!r} beside the protected \"enc\": {enc!r}: the content encryption key depends on the unlisted name - without that "
+                                      f"(unauthenticated) member the token no longer decrypts: {d.exc!r}", {**case, "token": o.value})
+
+
 def run_shard(ctx):
     J.load()
     rng = ctx.rng
@@ -457,6 +497,10 @@ def run_shard(ctx):
                 k += 1
                 if k % ctx.nshards == ctx.shard and not (z is None):
                     jwe_ops(mon, "A128KW", "A128GCM", copy.deepcopy(z), copy.deepcopy(allow), rng.choice(["algorithms", "registry", "list+registry"]), rng)
+        if ctx.shard == 2:
+            J.register_drafts()
+            mon.world.drafts = True
+            kdf_algorithm_name(ctx, rng)
         # histories
         shared_registry_history(mon, rng, 25 if ctx.tier == "quick" else 400)
         history(mon, rng, 400 if ctx.tier == "quick" else 2000)
@@ -477,7 +521,10 @@ def replay(ctx, case):
     J.load()
     mon = Mon(ctx)
     try:
-        if "name" in case:
+        if case.get("kdf_algorithm_name"):
+            J.register_drafts()
+            kdf_algorithm_name(ctx, ctx.rng)
+        elif "name" in case:
             jws_ops(mon, case["name"], case["allow"], case["mode"], ctx.rng)
         elif "alg" in case:
             if case["alg"] in g.DRAFT_ALGS or case["enc"] in g.DRAFT_ENCS:
